@@ -425,9 +425,25 @@ class _Misc(ast.NodeTransformer):
     def __init__(self, log, modname):
         self.log, self.modname = log, modname
 
+    _CALL_DEFAULTS = {
+        # keyword arguments that spell out the callee's documented default are no arguments at all
+        "json.dumps": {"indent": None, "sort_keys": False, "separators": None, "default": None, "ensure_ascii": True, "skipkeys": False, "check_circular": True, "allow_nan": True, "cls": None},
+        "json.dump": {"indent": None, "sort_keys": False, "separators": None, "default": None, "ensure_ascii": True, "skipkeys": False, "check_circular": True, "allow_nan": True, "cls": None},
+        "json.loads": {"cls": None, "object_hook": None, "parse_float": None, "parse_int": None, "parse_constant": None, "object_pairs_hook": None},
+        "sorted": {"reverse": False, "key": None},
+        "copy.deepcopy": {"memo": None},
+    }
+
     def visit_Call(self, n):
         self.generic_visit(n)
         f = n.func
+        dn = ast.unparse(f) if isinstance(f, (ast.Name, ast.Attribute)) else None
+        if dn in self._CALL_DEFAULTS and n.keywords:
+            d = self._CALL_DEFAULTS[dn]
+            keep = [k for k in n.keywords if not (k.arg in d and isinstance(k.value, ast.Constant) and k.value.value is d[k.arg] )]
+            if len(keep) != len(n.keywords):
+                self.log.append(f"default-valued keyword(s) dropped {self.modname}:{n.lineno} {dn}({', '.join(k.arg for k in n.keywords if k not in keep)})")
+                n.keywords = keep
         name = f.id if isinstance(f, ast.Name) else (f.attr if isinstance(f, ast.Attribute) and isinstance(f.value, ast.Name) and f.value.id == "operator" else None)
         if name in ("attrgetter", "itemgetter") and n.args and not n.keywords and all(isinstance(a, ast.Constant) for a in n.args):
             x = ast.Name(id="e", ctx=ast.Load())
@@ -1226,6 +1242,763 @@ def deque_to_index(fn, log=None, where=""):
     if log is not None:
         log.append(f"deque -> list + head index {where}:{fn.name} {sorted(qs)}")
     return True
+
+
+def iterator_to_index(fn, log=None, where=""):
+    """A list walked front to back through an explicit iterator is the list with an index:
+        it = iter(xs) ; x = next(it, None)      ->  x_i = 0
+        while x is not None [and ...]:          ->  while x_i < len(xs) [and ...]:
+                                                        x = xs[x_i]
+            x = next(it, None)                  ->      x_i += 1          (x is not read again in that iteration)
+        acc += it / acc.extend(it) / list(it)   ->  xs[x_i + 1:]          (what the iterator has NOT handed out yet:
+                                                                           the element held in x is not part of it)
+    x read after the loop is xs[x_i] if x_i < len(xs) else None.  Any other use of it / x leaves the function as it is."""
+    its = {}
+    for st in fn.body:
+        if isinstance(st, ast.Assign) and len(st.targets) == 1 and isinstance(st.targets[0], ast.Name) and isinstance(st.value, ast.Call) and isinstance(st.value.func, ast.Name) and st.value.func.id == "iter" and len(st.value.args) == 1 and isinstance(st.value.args[0], ast.Name) and not st.value.keywords:
+            its[st.targets[0].id] = (st, st.value.args[0].id)
+    if not its:
+        return False
+    done = []
+    for it, (idef, xs) in its.items():
+        par = {}
+        for n in ast.walk(fn):
+            for c in ast.iter_child_nodes(n):
+                par[id(c)] = n
+
+        def is_next(v):
+            return isinstance(v, ast.Call) and isinstance(v.func, ast.Name) and v.func.id == "next" and len(v.args) == 2 and isinstance(v.args[0], ast.Name) and v.args[0].id == it and isinstance(v.args[1], ast.Constant) and v.args[1].value is None and not v.keywords
+
+        nexts = [n for n in ast.walk(fn) if isinstance(n, ast.Assign) and len(n.targets) == 1 and isinstance(n.targets[0], ast.Name) and is_next(n.value)]
+        xnames = {n.targets[0].id for n in nexts}
+        if len(xnames) != 1:
+            continue
+        x = xnames.pop()
+        # every use of `it`
+        ok = True
+        tails = []
+        for n in ast.walk(fn):
+            if isinstance(n, ast.Name) and n.id == it:
+                p = par.get(id(n))
+                if p is idef:
+                    continue
+                if isinstance(p, ast.Call) and is_next(p) and isinstance(par.get(id(p)), ast.Assign):
+                    continue
+                if isinstance(p, ast.AugAssign) and p.value is n and isinstance(p.op, ast.Add):
+                    tails.append(n)
+                    continue
+                if isinstance(p, ast.Call) and ((isinstance(p.func, ast.Attribute) and p.func.attr == "extend") or (isinstance(p.func, ast.Name) and p.func.id == "list")) and len(p.args) == 1 and p.args[0] is n:
+                    tails.append(n)
+                    continue
+                ok = False
+        # every binding of x is a next(); xs is not re-bound
+        for n in ast.walk(fn):
+            if isinstance(n, ast.Name) and n.id == x and isinstance(n.ctx, ast.Store) and not (isinstance(par.get(id(n)), ast.Assign) and par[id(n)] in nexts):
+                ok = False
+            if isinstance(n, ast.Name) and n.id == xs and isinstance(n.ctx, ast.Store) and n.lineno >= idef.lineno:
+                ok = False
+        loops = [st for st in fn.body if isinstance(st, ast.While)]
+        loops = [lp for lp in loops if any(n in nexts for n in ast.walk(lp))]
+        if not ok or len(loops) != 1:
+            continue
+        lp = loops[0]
+        first = [n for n in nexts if n in fn.body and fn.body.index(n) < fn.body.index(lp)]
+        inner = [n for n in nexts if any(n is y for y in ast.walk(lp))]
+        if len(first) != 1 or len(first) + len(inner) != len(nexts) or fn.body.index(first[0]) < fn.body.index(idef):
+            continue
+        # the loop test asks `x is not None`
+        conj = lp.test.values if isinstance(lp.test, ast.BoolOp) and isinstance(lp.test.op, ast.And) else [lp.test]
+        hit = [c for c in conj if isinstance(c, ast.Compare) and len(c.ops) == 1 and isinstance(c.ops[0], ast.IsNot) and isinstance(c.left, ast.Name) and c.left.id == x and isinstance(c.comparators[0], ast.Constant) and c.comparators[0].value is None]
+        if len(hit) != 1 or lp.orelse:
+            continue
+        # x is not read between the first next() and the loop, nor after a next() inside the same iteration
+        between = fn.body[fn.body.index(first[0]) + 1 : fn.body.index(lp)]
+        if any(isinstance(n, ast.Name) and n.id == x for st in between for n in ast.walk(st)):
+            continue
+
+        def later_reads(stn):
+            cur = stn
+            while cur is not lp:
+                p = par.get(id(cur))
+                if p is None:
+                    return True
+                for field in ("body", "orelse", "finalbody"):
+                    blk = getattr(p, field, None)
+                    if isinstance(blk, list) and any(cur is b_ for b_ in blk):
+                        i_ = [k for k, b_ in enumerate(blk) if b_ is cur][0]
+                        for later in blk[i_ + 1 :]:
+                            if any(isinstance(n, ast.Name) and n.id == x for n in ast.walk(later)):
+                                return True
+                if isinstance(p, (ast.For, ast.While)) and p is not lp:
+                    return True
+                cur = p
+            return False
+
+        if any(later_reads(n) for n in inner):
+            continue
+        I = f"{x}_i"
+        if any(isinstance(n, ast.Name) and n.id == I for n in ast.walk(fn)):
+            continue
+
+        def load(nm):
+            return ast.Name(id=nm, ctx=ast.Load())
+
+        def in_range():
+            return ast.Compare(left=load(I), ops=[ast.Lt()], comparators=[ast.Call(func=load("len"), args=[load(xs)], keywords=[])])
+
+        def elem():
+            return ast.Subscript(value=load(xs), slice=load(I), ctx=ast.Load())
+
+        # rewrite
+        z = ast.copy_location(ast.Assign(targets=[ast.Name(id=I, ctx=ast.Store())], value=ast.Constant(value=0)), idef)
+        fn.body[fn.body.index(idef)] = z
+        fn.body.remove(first[0])
+        new_conj = [in_range() if c is hit[0] else c for c in conj]
+        lp.test = new_conj[0] if len(new_conj) == 1 else ast.BoolOp(op=ast.And(), values=new_conj)
+        ast.copy_location(lp.test, lp)
+        fetch = ast.copy_location(ast.Assign(targets=[ast.Name(id=x, ctx=ast.Store())], value=elem()), lp.body[0])
+
+        class R(ast.NodeTransformer):
+            def visit_Assign(self, n):
+                if any(n is y for y in inner):
+                    return ast.copy_location(ast.AugAssign(target=ast.Name(id=I, ctx=ast.Store()), op=ast.Add(), value=ast.Constant(value=1)), n)
+                return self.generic_visit(n)
+
+            def visit_Name(self, n):
+                if any(n is t for t in tails):
+                    return ast.copy_location(ast.Subscript(value=load(xs), slice=ast.Slice(lower=ast.BinOp(left=load(I), op=ast.Add(), right=ast.Constant(value=1))), ctx=ast.Load()), n)
+                return n
+
+            def visit_FunctionDef(self, n):
+                return n
+
+        lp.body = [R().visit(st) for st in lp.body]
+        lp.body.insert(0, fetch)
+        k = fn.body.index(lp)
+        # `if x is not None: acc.append(x)` directly followed by `acc += it`: the held element and what the iterator still has
+        # are together the list from the index on
+        tail_ = fn.body[k + 1 : k + 3]
+        if len(tail_) == 2 and isinstance(tail_[0], ast.If) and not tail_[0].orelse and len(tail_[0].body) == 1:
+            t0, t1 = tail_
+            c0 = t0.test
+            held = (isinstance(c0, ast.Compare) and len(c0.ops) == 1 and isinstance(c0.ops[0], ast.IsNot) and isinstance(c0.left, ast.Name) and c0.left.id == x and isinstance(c0.comparators[0], ast.Constant) and c0.comparators[0].value is None) or (isinstance(c0, ast.Name) and c0.id == x)
+            b0 = t0.body[0]
+            app = isinstance(b0, ast.Expr) and isinstance(b0.value, ast.Call) and isinstance(b0.value.func, ast.Attribute) and b0.value.func.attr == "append" and isinstance(b0.value.func.value, ast.Name) and len(b0.value.args) == 1 and isinstance(b0.value.args[0], ast.Name) and b0.value.args[0].id == x
+            acc_ = b0.value.func.value.id if app else None
+            ext = None
+            if isinstance(t1, ast.AugAssign) and isinstance(t1.op, ast.Add) and isinstance(t1.target, ast.Name) and any(t1.value is t for t in tails):
+                ext = t1.target.id
+            elif isinstance(t1, ast.Expr) and isinstance(t1.value, ast.Call) and isinstance(t1.value.func, ast.Attribute) and t1.value.func.attr == "extend" and isinstance(t1.value.func.value, ast.Name) and t1.value.args and any(t1.value.args[0] is t for t in tails):
+                ext = t1.value.func.value.id
+            if held and app and ext == acc_:
+                whole = ast.copy_location(ast.AugAssign(target=ast.Name(id=acc_, ctx=ast.Store()), op=ast.Add(), value=ast.Subscript(value=load(xs), slice=ast.Slice(lower=load(I)), ctx=ast.Load())), t0)
+                fn.body[k + 1 : k + 3] = [whole]
+        rest = [R().visit(st) for st in fn.body[k + 1 :]]
+        if any(isinstance(n, ast.Name) and n.id == x and isinstance(n.ctx, ast.Load) for st in rest for n in ast.walk(st)):
+            after = ast.copy_location(ast.Assign(targets=[ast.Name(id=x, ctx=ast.Store())], value=ast.IfExp(test=in_range(), body=elem(), orelse=ast.Constant(value=None))), lp)
+            after.lineno = after.end_lineno = getattr(lp, "end_lineno", lp.lineno)
+            rest.insert(0, after)
+        fn.body[k + 1 :] = rest
+        done.append(f"{it}->{xs}[{I}]")
+    if done:
+        ast.fix_missing_locations(fn)
+        if log is not None:
+            log.append(f"iterator -> list + index {where}:{fn.name} {done}")
+    return bool(done)
+
+
+def prefix_scanner_to_token(fn, log=None, where=""):
+    """A scanner that computes the LENGTH of the accepted prefix and slices is the scanner that accumulates the prefix:
+        end = 0                                              tok = ""
+        while end < len(s) and P(s[end]): end += 1     ->    for ch in s:
+                                                                 if P(ch): tok += ch
+                                                                 else: break
+        for i, ch in enumerate(s):
+            if C(ch, i): end = i + 1                   ->            if C(ch, i): tok += ch
+            else: break
+        s[:end] -> tok          s[end:] -> s[len(tok):]
+    (end is the number of characters accepted so far, all of them at the front).  Any other use of `end` leaves the function alone."""
+    par = {}
+    for n in ast.walk(fn):
+        for c in ast.iter_child_nodes(n):
+            par[id(c)] = n
+    zeros = [st for st in fn.body if isinstance(st, ast.Assign) and len(st.targets) == 1 and isinstance(st.targets[0], ast.Name) and isinstance(st.value, ast.Constant) and st.value.value == 0 and not isinstance(st.value.value, bool)]
+    done = []
+    for z in zeros:
+        E = z.targets[0].id
+        stores = [n for n in ast.walk(fn) if isinstance(n, ast.Name) and n.id == E and isinstance(n.ctx, ast.Store) and par.get(id(n)) is not z]
+        loads = [n for n in ast.walk(fn) if isinstance(n, ast.Name) and n.id == E and isinstance(n.ctx, ast.Load)]
+        if len(stores) != 1:
+            continue
+        st_ = par.get(id(stores[0]))
+        S = None
+        plan = None
+        used = {n.id for n in ast.walk(fn) if isinstance(n, ast.Name)} | {a.arg for a in fn.args.args}
+        # (a) while end < len(s) and P(s[end]): end += 1
+        if isinstance(st_, ast.AugAssign) and isinstance(st_.op, ast.Add) and isinstance(st_.value, ast.Constant) and st_.value.value == 1:
+            lp = par.get(id(st_))
+            if isinstance(lp, ast.While) and lp.body == [st_] and not lp.orelse and isinstance(lp.test, ast.BoolOp) and isinstance(lp.test.op, ast.And) and len(lp.test.values) >= 2:
+                t0 = lp.test.values[0]
+                if isinstance(t0, ast.Compare) and len(t0.ops) == 1 and isinstance(t0.ops[0], ast.Lt) and isinstance(t0.left, ast.Name) and t0.left.id == E and isinstance(t0.comparators[0], ast.Call) and ast.unparse(t0.comparators[0].func) == "len" and len(t0.comparators[0].args) == 1 and isinstance(t0.comparators[0].args[0], ast.Name):
+                    S = t0.comparators[0].args[0].id
+                    plan = ("while", lp)
+        # (b) for i, ch in enumerate(s): if C: end = i + 1 else: break
+        if isinstance(st_, ast.Assign) and isinstance(st_.value, ast.BinOp) and isinstance(st_.value.op, ast.Add):
+            iff = par.get(id(st_))
+            lp = par.get(id(iff))
+            v = st_.value
+            one = (isinstance(v.right, ast.Constant) and v.right.value == 1 and isinstance(v.left, ast.Name) and v.left.id) or (isinstance(v.left, ast.Constant) and v.left.value == 1 and isinstance(v.right, ast.Name) and v.right.id)
+            if isinstance(iff, ast.If) and iff.body == [st_] and len(iff.orelse) == 1 and isinstance(iff.orelse[0], ast.Break) and isinstance(lp, ast.For) and lp.body == [iff] and not lp.orelse and isinstance(lp.iter, ast.Call) and ast.unparse(lp.iter.func) == "enumerate" and len(lp.iter.args) == 1 and isinstance(lp.iter.args[0], ast.Name) and isinstance(lp.target, ast.Tuple) and len(lp.target.elts) == 2 and all(isinstance(x, ast.Name) for x in lp.target.elts) and one == lp.target.elts[0].id:
+                S = lp.iter.args[0].id
+                plan = ("for", lp, iff)
+        if plan is None or S is None:
+            continue
+        if any(isinstance(n, ast.Name) and n.id == S and isinstance(n.ctx, ast.Store) for n in ast.walk(fn)):
+            continue
+        # every read of end: the loop's own test / s[end] inside it, s[:end], s[end:]
+        ok = True
+        heads, tails, inloop = [], [], []
+        for n in loads:
+            p = par.get(id(n))
+            if any(n is y for y in ast.walk(plan[1].test if plan[0] == "while" else plan[1])):
+                inloop.append(n)
+                continue
+            if isinstance(p, ast.AugAssign):
+                continue
+            if isinstance(p, ast.Slice) and isinstance(par.get(id(p)), ast.Subscript) and isinstance(par[id(p)].value, ast.Name) and par[id(p)].value.id == S and p.step is None:
+                sub = par[id(p)]
+                if p.upper is n and p.lower is None:
+                    heads.append(sub)
+                    continue
+                if p.lower is n and p.upper is None:
+                    tails.append(sub)
+                    continue
+            ok = False
+        if not ok or not (heads or tails):
+            continue
+        tok = "token" if "token" not in used else f"{E}_tok"
+        if tok in used:
+            continue
+
+        def load(nm):
+            return ast.Name(id=nm, ctx=ast.Load())
+
+        if plan[0] == "while":
+            lp = plan[1]
+            ch = "char" if "char" not in used else f"{E}_ch"
+            if ch in used:
+                continue
+            rest = lp.test.values[1:]
+            # the remaining conjuncts may mention s[end] only
+            bad = False
+
+            class R(ast.NodeTransformer):
+                def visit_Subscript(self, n):
+                    if isinstance(n.value, ast.Name) and n.value.id == S and isinstance(n.slice, ast.Name) and n.slice.id == E:
+                        return ast.copy_location(load(ch), n)
+                    return self.generic_visit(n)
+
+            rest = [R().visit(x) for x in rest]
+            if any(isinstance(n, ast.Name) and n.id == E for x in rest for n in ast.walk(x)):
+                continue
+            cond = rest[0] if len(rest) == 1 else ast.BoolOp(op=ast.And(), values=rest)
+            acc = ast.AugAssign(target=ast.Name(id=tok, ctx=ast.Store()), op=ast.Add(), value=load(ch))
+            new_lp = ast.For(target=ast.Name(id=ch, ctx=ast.Store()), iter=load(S), body=[ast.If(test=cond, body=[acc], orelse=[ast.Break()])], orelse=[], type_comment=None)
+            ast.copy_location(new_lp, lp)
+            for x in ast.walk(new_lp):
+                if not hasattr(x, "lineno"):
+                    ast.copy_location(x, lp)
+            holder = par.get(id(lp))
+            for field in ("body", "orelse", "finalbody"):
+                blk = getattr(holder, field, None)
+                if isinstance(blk, list) and any(b is lp for b in blk):
+                    blk[[k for k, b in enumerate(blk) if b is lp][0]] = new_lp
+        else:
+            lp, iff = plan[1], plan[2]
+            iff.body = [ast.copy_location(ast.AugAssign(target=ast.Name(id=tok, ctx=ast.Store()), op=ast.Add(), value=load(lp.target.elts[1].id)), iff.body[0])]
+        z.targets = [ast.Name(id=tok, ctx=ast.Store())]
+        z.value = ast.Constant(value="")
+
+        class R2(ast.NodeTransformer):
+            def visit_Subscript(self, n):
+                if any(n is h for h in heads):
+                    return ast.copy_location(load(tok), n)
+                if any(n is t for t in tails):
+                    n.slice = ast.Slice(lower=ast.Call(func=load("len"), args=[load(tok)], keywords=[]), upper=None, step=None)
+                    return n
+                return self.generic_visit(n)
+
+        fn.body = [R2().visit(st) for st in fn.body]
+        done.append(f"{E}->{tok}")
+    if done:
+        ast.fix_missing_locations(fn)
+        if log is not None:
+            log.append(f"prefix-length scanner -> accumulated token {where}:{fn.name} {done}")
+    return bool(done)
+
+
+class _Fold(ast.NodeTransformer):
+    """replace loads of NAME by a constant and fold the tests that become decided"""
+
+    def __init__(self, name, const):
+        self.name, self.const = name, const
+
+    def _c(self, e):
+        """(known, python value) of a folded expression"""
+        if isinstance(e, ast.Constant):
+            return True, e.value
+        return False, None
+
+    def visit_Name(self, n):
+        if n.id == self.name and isinstance(n.ctx, ast.Load):
+            return ast.copy_location(ast.Constant(value=self.const), n)
+        return n
+
+    def visit_FunctionDef(self, n):
+        a = n.args
+        if self.name in [x.arg for x in a.args + a.kwonlyargs + a.posonlyargs] or (a.vararg and a.vararg.arg == self.name) or (a.kwarg and a.kwarg.arg == self.name):
+            return n
+        return self.generic_visit(n)
+
+    visit_AsyncFunctionDef = visit_FunctionDef
+
+    def visit_Lambda(self, n):
+        if self.name in [x.arg for x in n.args.args]:
+            return n
+        return self.generic_visit(n)
+
+    def visit_Compare(self, n):
+        self.generic_visit(n)
+        if len(n.ops) == 1 and isinstance(n.left, ast.Constant) and isinstance(n.comparators[0], ast.Constant) and isinstance(n.ops[0], (ast.Is, ast.IsNot, ast.Eq, ast.NotEq)):
+            a, b = n.left.value, n.comparators[0].value
+            if isinstance(n.ops[0], (ast.Is, ast.IsNot)) and not (a is None or b is None or isinstance(a, bool) and isinstance(b, bool)):
+                return n
+            eq = (a is b) if isinstance(n.ops[0], (ast.Is, ast.IsNot)) else (a == b and type(a) is type(b))
+            return ast.copy_location(ast.Constant(value=eq if isinstance(n.ops[0], (ast.Is, ast.Eq)) else not eq), n)
+        return n
+
+    def visit_UnaryOp(self, n):
+        self.generic_visit(n)
+        if isinstance(n.op, ast.Not) and isinstance(n.operand, ast.Constant):
+            return ast.copy_location(ast.Constant(value=not n.operand.value), n)
+        return n
+
+    def visit_BoolOp(self, n):
+        self.generic_visit(n)
+        vals = list(n.values)
+        out = []
+        for i, v in enumerate(vals):
+            if isinstance(v, ast.Constant):
+                t = bool(v.value)
+                if isinstance(n.op, ast.Or):
+                    if t:
+                        out.append(v)
+                        break
+                    if i == len(vals) - 1:
+                        out.append(v)
+                    continue
+                else:
+                    if not t:
+                        out.append(v)
+                        break
+                    if i == len(vals) - 1:
+                        out.append(v)
+                    continue
+            out.append(v)
+        if len(out) == 1:
+            return out[0]
+        n.values = out
+        return n
+
+    def visit_IfExp(self, n):
+        self.generic_visit(n)
+        if isinstance(n.test, ast.Constant):
+            return n.body if n.test.value else n.orelse
+        return n
+
+    def _block(self, stmts):
+        out = []
+        for st in stmts:
+            r = self.visit(st)
+            if r is None:
+                continue
+            out.extend(r if isinstance(r, list) else [r])
+        return out
+
+    def visit_If(self, n):
+        n.test = self.visit(n.test)
+        n.body = self._block(n.body)
+        n.orelse = self._block(n.orelse)
+        if isinstance(n.test, ast.Constant):
+            keep = n.body if n.test.value else n.orelse
+            return keep or None
+        if not n.body:
+            n.body = [ast.copy_location(ast.Pass(), n)]
+        return n
+
+    def visit_While(self, n):
+        n.test = self.visit(n.test)
+        n.body = self._block(n.body) or [ast.copy_location(ast.Pass(), n)]
+        n.orelse = self._block(n.orelse)
+        return n
+
+    def visit_For(self, n):
+        n.iter = self.visit(n.iter)
+        n.body = self._block(n.body) or [ast.copy_location(ast.Pass(), n)]
+        n.orelse = self._block(n.orelse)
+        return n
+
+    def visit_With(self, n):
+        n.items = [self.visit(i) for i in n.items]
+        n.body = self._block(n.body) or [ast.copy_location(ast.Pass(), n)]
+        return n
+
+    def visit_Try(self, n):
+        n.body = self._block(n.body) or [ast.copy_location(ast.Pass(), n)]
+        for h in n.handlers:
+            h.body = self._block(h.body) or [ast.copy_location(ast.Pass(), h)]
+        n.orelse = self._block(n.orelse)
+        n.finalbody = self._block(n.finalbody)
+        return n
+
+
+def specialise_new_parameters(modules, known_funcs, log):
+    """An optional parameter that a known function has gained, and that no call in the repository passes, has its default
+    value on every call the properties speak about: the function is analysed with the parameter bound to the default
+    (`def f(a, flag=False)` -> `def f(a)` with `flag` replaced by False and the tests that decides folded;
+    `p=None` with `if p is None: p = X` -> p replaced by X)."""
+    fps = known_fingerprints()
+    # who passes what: calls by simple name
+    passed = {}  # simple function name -> [(n positional, set(keywords), has star)]
+    for mi in modules.values():
+        for c in ast.walk(mi.tree):
+            if isinstance(c, ast.Call):
+                nm = c.func.id if isinstance(c.func, ast.Name) else c.func.attr if isinstance(c.func, ast.Attribute) else None
+                if nm:
+                    passed.setdefault(nm, []).append((len(c.args), {k.arg for k in c.keywords}, any(isinstance(a, ast.Starred) for a in c.args) or any(k.arg is None for k in c.keywords), isinstance(c.func, ast.Attribute)))
+    for mi in modules.values():
+        for q, fn, scope in iter_functions(mi.tree, mi.name):
+            K = fps.get(q + "#arity")
+            if K is None or q not in known_funcs:
+                continue
+            a = fn.args
+            if a.vararg or a.posonlyargs:
+                continue
+            extra = a.args[K:]
+            n_def = len(a.defaults)
+            if len(extra) > n_def:
+                continue  # a new parameter without a default: not optional
+            new = [(p_, d_) for p_, d_ in zip(extra, a.defaults[n_def - len(extra):])] if extra else []
+            new += [(p_, d_) for p_, d_ in zip(a.kwonlyargs, a.kw_defaults) if d_ is not None]
+            if not new or len([p_ for p_ in a.kwonlyargs]) != len([d_ for d_ in a.kw_defaults if d_ is not None]):
+                continue
+            if not all(isinstance(d_, ast.Constant) or (isinstance(d_, ast.UnaryOp) and isinstance(d_.operand, ast.Constant)) for _p, d_ in new):
+                continue
+            is_method = scope[1] is not None and not any(ast.unparse(d) == "staticmethod" for d in fn.decorator_list)
+            names = {p_.arg for p_, _d in new}
+            hit = False
+            for npos, kws, star, attr_call in passed.get(fn.name, []) + (passed.get(scope[1], []) if fn.name == "__init__" and scope[1] else []):
+                limit = K - (1 if is_method and (attr_call or fn.name == "__init__") else 0)
+                if star or kws & names or npos > limit:
+                    hit = True
+            if hit:
+                continue
+            # the parameter is not re-bound, except by the `if p is None: p = X` idiom at the top level of the body
+            ok = True
+            plan = []
+            for p_, d_ in new:
+                nm = p_.arg
+                const = d_.value if isinstance(d_, ast.Constant) else -d_.operand.value
+                stores = [n for n in ast.walk(fn) if isinstance(n, ast.Name) and n.id == nm and isinstance(n.ctx, ast.Store)]
+                idiom = None
+                if stores:
+                    for st in fn.body:
+                        if isinstance(st, ast.If) and not st.orelse and len(st.body) == 1 and isinstance(st.body[0], ast.Assign) and len(st.body[0].targets) == 1 and isinstance(st.body[0].targets[0], ast.Name) and st.body[0].targets[0].id == nm and ast.unparse(st.test) in (f"{nm} is None", f"not {nm}") and const is None:
+                            idiom = st
+                    if idiom is None or len(stores) != 1 or not isinstance(idiom.body[0].value, (ast.Name, ast.Attribute, ast.Constant)):
+                        ok = False
+                        break
+                    # nothing reads the parameter before the idiom
+                    before = fn.body[: fn.body.index(idiom)]
+                    if any(isinstance(n, ast.Name) and n.id == nm for st in before for n in ast.walk(st)):
+                        ok = False
+                        break
+                if any(isinstance(n, (ast.Global, ast.Nonlocal)) and nm in n.names for n in ast.walk(fn)):
+                    ok = False
+                    break
+                plan.append((p_, nm, const, idiom))
+            if not ok:
+                continue
+            for p_, nm, const, idiom in plan:
+                if idiom is not None:
+                    val = idiom.body[0].value
+                    fn.body.remove(idiom)
+                    if isinstance(val, ast.Constant):
+                        fn.body = _Fold(nm, val.value)._block(fn.body) or [ast.Pass()]
+                    else:
+                        class R(ast.NodeTransformer):
+                            def visit_Name(self, n):
+                                if n.id == nm and isinstance(n.ctx, ast.Load):
+                                    return ast.copy_location(ast.parse(ast.unparse(val), mode="eval").body, n)
+                                return n
+                        fn.body = [R().visit(st) for st in fn.body]
+                else:
+                    fn.body = _Fold(nm, const)._block(fn.body) or [ast.Pass()]
+                if p_ in a.args:
+                    i_ = a.args.index(p_)
+                    del a.defaults[i_ - (len(a.args) - len(a.defaults))]
+                    a.args.remove(p_)
+                else:
+                    i_ = a.kwonlyargs.index(p_)
+                    del a.kw_defaults[i_]
+                    a.kwonlyargs.remove(p_)
+                log.append(f"new optional parameter specialised to its default {mi.name}:{fn.name}({nm}={const!r})")
+            ast.fix_missing_locations(fn)
+
+
+_LOG_ROOTS = ("logger", "logging", "log", "_logger", "LOG")
+_PURE_CALLS = ("len", "int", "float", "round", "max", "min", "sum", "abs", "str", "repr", "bool", "time.perf_counter", "time.time", "time.monotonic", "time.process_time", "time.perf_counter_ns", "perf_counter", "monotonic", "datetime.now", "datetime.utcnow", "datetime.datetime.now", "timedelta", "datetime.timedelta")
+
+
+def _is_log_call(c):
+    if not isinstance(c, ast.Call):
+        return False
+    f = c.func
+    if isinstance(f, ast.Name) and f.id == "print":
+        return True
+    if isinstance(f, ast.Attribute) and f.attr in ("debug", "info", "warning", "warn", "error", "exception", "critical", "log"):
+        root = f.value
+        while isinstance(root, ast.Attribute):
+            if root.attr in ("logger", "log", "_logger"):
+                return True
+            root = root.value
+        return isinstance(root, ast.Name) and root.id in _LOG_ROOTS
+    return False
+
+
+def drop_log_only_locals(fn, log=None, where=""):
+    """Locals that exist only to be logged (counters, timers, sizes) are not part of the computation:
+        n = 0 ... n += 1 ... t0 = time.perf_counter() ... logger.debug("...", n, time.perf_counter() - t0)
+    Every read of such a local is an argument of a logging call (or feeds another such local), every write is a plain
+    `v = pure` / `v += pure` statement.  The writes are removed; the logging call keeps its text (nothing reads it)."""
+    params = {a.arg for a in fn.args.args + fn.args.kwonlyargs + fn.args.posonlyargs} | ({fn.args.vararg.arg} if fn.args.vararg else set()) | ({fn.args.kwarg.arg} if fn.args.kwarg else set())
+    par = {}
+    for n in ast.walk(fn):
+        for c in ast.iter_child_nodes(n):
+            par[id(c)] = n
+    if any(isinstance(n, (ast.Global, ast.Nonlocal)) for n in ast.walk(fn)):
+        return False
+    nested = {id(x) for n in ast.walk(fn) if isinstance(n, (ast.FunctionDef, ast.AsyncFunctionDef, ast.Lambda, ast.ClassDef)) and n is not fn for x in ast.walk(n)}
+    names = {}
+    for n in ast.walk(fn):
+        if isinstance(n, ast.Name) and n.id not in params:
+            names.setdefault(n.id, []).append(n)
+
+    def pure(e, cand):
+        for x in ast.walk(e):
+            if isinstance(x, ast.Call):
+                if ast.unparse(x.func) in _PURE_CALLS:
+                    continue
+                if isinstance(x.func, ast.Attribute) and x.func.attr in ("total_seconds", "isoformat", "timestamp") and not x.args:
+                    continue
+                return False
+            if isinstance(x, (ast.Await, ast.Yield, ast.YieldFrom, ast.NamedExpr, ast.Lambda, ast.ListComp, ast.GeneratorExp, ast.DictComp, ast.SetComp, ast.Subscript, ast.Starred)):
+                return False
+        return True
+
+    def write_stmt(nm):
+        """the statement that stores into the Name node, if it is a plain v = e / v += e"""
+        p = par.get(id(nm))
+        if isinstance(p, ast.Assign) and len(p.targets) == 1 and p.targets[0] is nm:
+            return p
+        if isinstance(p, ast.AugAssign) and p.target is nm:
+            return p
+        if isinstance(p, ast.AnnAssign) and p.target is nm and p.value is not None:
+            return p
+        return None
+
+    cand = set()
+    for v, nodes in names.items():
+        if any(id(n) in nested for n in nodes):
+            continue
+        stores = [n for n in nodes if isinstance(n.ctx, ast.Store)]
+        if not stores or any(isinstance(n.ctx, ast.Del) for n in nodes):
+            continue
+        if all(write_stmt(n) is not None for n in stores):
+            cand.add(v)
+    changed = True
+    while changed:
+        changed = False
+        for v in sorted(cand):
+            ok = True
+            for n in names[v]:
+                if isinstance(n.ctx, ast.Store):
+                    st = write_stmt(n)
+                    if not pure(st.value, cand):
+                        ok = False
+                    continue
+                # a read: inside a logging call's arguments, or inside the value of a write to a candidate
+                cur, fine = n, False
+                while cur is not None and cur is not fn:
+                    p = par.get(id(cur))
+                    if isinstance(p, ast.Call) and _is_log_call(p) and cur is not p.func:
+                        fine = True
+                        break
+                    if isinstance(p, (ast.Assign, ast.AugAssign, ast.AnnAssign)) and cur is p.value:
+                        t = p.targets[0] if isinstance(p, ast.Assign) and len(p.targets) == 1 else getattr(p, "target", None)
+                        fine = isinstance(t, ast.Name) and t.id in cand
+                        break
+                    if isinstance(p, ast.stmt):
+                        break
+                    cur = p
+                if not fine:
+                    ok = False
+            if not ok:
+                cand.discard(v)
+                changed = True
+    # only worth doing for locals that are actually logged somewhere (otherwise they are dead stores of another kind)
+    cand = {v for v in cand if any(isinstance(n.ctx, ast.Load) for n in names[v])}
+    if not cand:
+        return False
+    kill = {id(write_stmt(n)) for v in cand for n in names[v] if isinstance(n.ctx, ast.Store)}
+
+    def rec(stmts):
+        out = []
+        for st in stmts:
+            if id(st) in kill:
+                continue
+            for field in ("body", "orelse", "finalbody"):
+                blk = getattr(st, field, None)
+                if isinstance(blk, list) and blk and isinstance(blk[0], ast.stmt):
+                    nb = rec(blk)
+                    if not nb and field == "body":
+                        nb = [ast.copy_location(ast.Pass(), st)]
+                    setattr(st, field, nb)
+            if isinstance(st, ast.Try):
+                for h in st.handlers:
+                    h.body = rec(h.body) or [ast.copy_location(ast.Pass(), h)]
+            out.append(st)
+        return out
+
+    fn.body = rec(fn.body) or [ast.Pass()]
+    # the logging calls that mention the removed locals keep only their constant text
+    class L(ast.NodeTransformer):
+        def visit_Call(self, n):
+            if _is_log_call(n) and any(isinstance(x, ast.Name) and x.id in cand for x in ast.walk(n)):
+                n.args = [a if not any(isinstance(x, ast.Name) and x.id in cand for x in ast.walk(a)) else ast.copy_location(ast.Constant(value="<log-only>"), a) for a in n.args]
+                n.keywords = [k for k in n.keywords if not any(isinstance(x, ast.Name) and x.id in cand for x in ast.walk(k.value))]
+                return n
+            return self.generic_visit(n)
+
+    fn.body = [L().visit(st) for st in fn.body]
+    ast.fix_missing_locations(fn)
+    if log is not None:
+        log.append(f"log-only locals removed {where}:{fn.name} {sorted(cand)}")
+    return True
+
+
+def flag_to_condition(fn, log=None, where=""):
+    """A boolean flag that is set in a guarded block and tested right after is the conjunction it stands for:
+        f = False
+        if G:                       ->   if G and E[a := A]:
+            a = A                            ...
+            f = E
+        if f: ...
+    (G and the A's are pure; the locals of the block that are used nowhere else are inlined into E, the others stay in the
+    guarded block).  `if not f` becomes `if not (G and E)`."""
+    done = []
+
+    def pure(e):
+        for x in ast.walk(e):
+            if isinstance(x, ast.Call) and not (ast.unparse(x.func) in _PURE_CALLS or (isinstance(x.func, ast.Attribute) and x.func.attr in ("total_seconds", "get", "gap", "intersects", "contains", "startswith", "endswith", "lower", "upper", "strip") )):
+                return False
+            if isinstance(x, (ast.Await, ast.Yield, ast.YieldFrom, ast.NamedExpr, ast.Lambda)):
+                return False
+        return True
+
+    counts = {}
+    for n in ast.walk(fn):
+        if isinstance(n, ast.Name):
+            counts.setdefault(n.id, []).append(n)
+
+    def rec(stmts):
+        out = list(stmts)
+        i = 0
+        while i + 2 < len(out) + 0:
+            a, b, c = out[i], out[i + 1] if i + 1 < len(out) else None, out[i + 2] if i + 2 < len(out) else None
+            hit = False
+            if isinstance(a, ast.Assign) and len(a.targets) == 1 and isinstance(a.targets[0], ast.Name) and isinstance(a.value, ast.Constant) and a.value.value is False and isinstance(b, ast.If) and not b.orelse and isinstance(c, ast.If):
+                F = a.targets[0].id
+                neg = isinstance(c.test, ast.UnaryOp) and isinstance(c.test.op, ast.Not) and isinstance(c.test.operand, ast.Name) and c.test.operand.id == F
+                pos = isinstance(c.test, ast.Name) and c.test.id == F
+                blk = b.body
+                simple = all(isinstance(x, ast.Assign) and len(x.targets) == 1 and isinstance(x.targets[0], ast.Name) and pure(x.value) for x in blk)
+                if (pos or neg) and simple and blk and blk[-1].targets[0].id == F and pure(b.test) and sum(1 for x in blk if x.targets[0].id == F) == 1:
+                    uses_F = counts.get(F, [])
+                    # F: stored twice (False, E), read once (the test)
+                    if len([n for n in uses_F if isinstance(n.ctx, ast.Store)]) == 2 and len([n for n in uses_F if isinstance(n.ctx, ast.Load)]) == 1:
+                        assigned = {x.targets[0].id for x in blk}
+                        g_names = {n.id for n in ast.walk(b.test) if isinstance(n, ast.Name)}
+                        if not (assigned & g_names):
+                            E = blk[-1].value
+                            keep = []
+                            env = {}
+                            for x in blk[:-1]:
+                                nm = x.targets[0].id
+                                val = _subst_names(x.value, env)
+                                stores = [n for n in counts.get(nm, []) if isinstance(n.ctx, ast.Store)]
+                                loads = [n for n in counts.get(nm, []) if isinstance(n.ctx, ast.Load)]
+                                inside = [n for n in loads if any(n is y for z in blk for y in ast.walk(z))]
+                                if len(stores) == 1 and len(inside) == len(loads):
+                                    env[nm] = val
+                                else:
+                                    x.value = val
+                                    keep.append(x)
+                            E2 = _subst_names(E, env)
+                            vals = [b.test] + (list(E2.values) if isinstance(E2, ast.BoolOp) and isinstance(E2.op, ast.And) else [E2])
+                            if isinstance(b.test, ast.BoolOp) and isinstance(b.test.op, ast.And):
+                                vals = list(b.test.values) + vals[1:]
+                            test = ast.BoolOp(op=ast.And(), values=[ast.parse(ast.unparse(v), mode="eval").body for v in vals])
+                            c.test = ast.copy_location(ast.UnaryOp(op=ast.Not(), operand=test) if neg else test, c.test)
+                            new = []
+                            if keep:
+                                b.body = keep
+                                new.append(b)
+                            new.append(c)
+                            out[i : i + 3] = new
+                            done.append(F)
+                            hit = True
+            if not hit:
+                i += 1
+        for st in out:
+            for field in ("body", "orelse", "finalbody"):
+                blk = getattr(st, field, None)
+                if isinstance(blk, list) and blk and isinstance(blk[0], ast.stmt) and not isinstance(st, (ast.FunctionDef, ast.AsyncFunctionDef, ast.ClassDef)):
+                    setattr(st, field, rec(blk))
+            if isinstance(st, ast.Try):
+                for h in st.handlers:
+                    h.body = rec(h.body)
+        return out
+
+    fn.body = rec(fn.body)
+    if done:
+        ast.fix_missing_locations(fn)
+        if log is not None:
+            log.append(f"flag variable -> condition {where}:{fn.name} {done}")
+    return bool(done)
+
+
+def _subst_names(e, env):
+    if not env:
+        return e
+
+    class R(ast.NodeTransformer):
+        def visit_Name(self, n):
+            if isinstance(n.ctx, ast.Load) and n.id in env:
+                return ast.copy_location(ast.parse(ast.unparse(env[n.id]), mode="eval").body, n)
+            return n
+
+    return R().visit(ast.parse(ast.unparse(e), mode="eval").body)
 
 
 def known_modules():
@@ -2476,6 +3249,7 @@ def run(modules, known_funcs):
     composed_decorators(modules, known_funcs, log)
     prefix_decorators(modules, known_funcs, log)
     inline_context_managers(modules, known_funcs, log)
+    specialise_new_parameters(modules, known_funcs, log)
     inline_constants(modules, log)
     intenum_members(modules, log)
     peewee_shortcuts(modules, log)
@@ -2488,4 +3262,8 @@ def run(modules, known_funcs):
             if isinstance(n, (ast.FunctionDef, ast.AsyncFunctionDef)):
                 rows_comprehension_to_loop(n, log, mi.name)
                 deque_to_index(n, log, mi.name)
+                iterator_to_index(n, log, mi.name)
+                prefix_scanner_to_token(n, log, mi.name)
+                drop_log_only_locals(n, log, mi.name)
+                flag_to_condition(n, log, mi.name)
     return log
